@@ -12,6 +12,7 @@ import (
 	"hash"
 	"slices"
 	"sort"
+	"strings"
 
 	"gonum.org/v1/gonum/internal/order"
 )
@@ -48,7 +49,45 @@ func Isomorphic(a, b []*Statement, decomp bool, h hash.Hash) bool {
 			return false
 		}
 	}
-	return true
+
+	// Equal sets of term hashes are necessary but not sufficient: the
+	// graphs are isomorphic only if the statements agree once blank
+	// nodes are labelled by their hashes.
+	as, ok := hashLabelled(a, ah)
+	if !ok {
+		return false
+	}
+	bs, ok := hashLabelled(b, bh)
+	if !ok {
+		return false
+	}
+	return slices.Equal(as, bs)
+}
+
+// hashLabelled returns the sorted statements with each blank node term
+// replaced by its hash. It returns false if a blank node has no hash.
+func hashLabelled(statements []*Statement, hashes map[string][]byte) ([]string, bool) {
+	label := func(t string) (string, bool) {
+		if !isBlank(t) {
+			return t, true
+		}
+		h, ok := hashes[t]
+		return fmt.Sprintf("_:%x", h), ok
+	}
+	dst := make([]string, len(statements))
+	for i, s := range statements {
+		var parts [4]string
+		for j, t := range []string{s.Subject.Value, s.Predicate.Value, s.Object.Value, s.Label.Value} {
+			l, ok := label(t)
+			if !ok {
+				return nil, false
+			}
+			parts[j] = l
+		}
+		dst[i] = strings.Join(parts[:], " ")
+	}
+	slices.Sort(dst)
+	return dst, true
 }
 
 func lexicalHashes(dst [][]byte, hashes map[string][]byte) {
